@@ -52,6 +52,36 @@ def numeric_ordinal(rng, case):
         f["flavour"] = "ordinal_numeric"
 
 
+def u_shaped_target(rng, case):
+    """non-monotone target profile along the first feature (high - low - high), missing values present and
+    grouped (dropna=True): the missing-value pass then re-enumerates groupings of the already carved groups"""
+    f = case["features"][0]
+    vals = decs(f["values"])
+    if f["kind"] == "quant":
+        fin = sorted(v for v in vals if not C.is_nan(v))
+        pos = {v: i / max(1, len(fin) - 1) for i, v in enumerate(fin)}
+        s = [pos[v] if not C.is_nan(v) else None for v in vals]
+    else:
+        ref = [str(x) for x in decs(f["order"])] if f["kind"] == "ord" else sorted({str(v) for v in vals if not C.is_nan(v)})
+        def form(v):
+            return str(int(v)) if isinstance(v, float) and v.is_integer() else str(v)
+        s = [ref.index(form(v)) / max(1, len(ref) - 1) if (not C.is_nan(v) and form(v) in ref) else None for v in vals]
+    if sum(x is None for x in s) == 0:
+        for i in rng.sample(range(len(vals)), max(2, len(vals) // 10)):
+            vals[i] = NAN
+            s[i] = None
+        f["values"] = encs(vals)
+    nan_rate = rng.choice([0.1, 0.5, 0.9])
+    prob = [nan_rate if x is None else 0.1 + 0.8 * abs(2 * x - 1) for x in s]
+    if case["cls"] == "ContinuousCarver":
+        case["y"] = [float(round(10 * p + rng.gauss(0, 1.5))) for p in prob]
+    else:
+        case["y"] = [1 if rng.random() < p else 0 for p in prob]
+        if len(set(case["y"])) < 2:
+            case["y"][0] = 1 - case["y"][0]
+    case["params"]["dropna"] = True
+
+
 def positions(members, ref):
     return sorted(i for i, r in enumerate(ref) if any(same(r, x) for x in members))
 
@@ -83,6 +113,8 @@ class C03(Prop):
             c["probe_seed"] = rng.randrange(10 ** 9)
             if i % 3 == 0:
                 numeric_ordinal(rng, c)
+            if i % 4 == 1 and c["cls"].endswith("Carver"):
+                u_shaped_target(rng, c)
             if c["cls"] == "ContinuousCarver" and i % 2 == 0:
                 # fractional target whose per-modality means lie within one unit (ratios)
                 c["y"] = [v / 16 for v in c["y"]]
